@@ -6,7 +6,7 @@ from props.api_common import StreamProperty, kv, parse_sources, case_codeword
 class P(StreamProperty):
     pid = 'C02'
     module = 'OpenFecVerif.Props.C02'
-    theorems = ['C02_any_k_gf8', 'C02_any_k_gf4', 'C02_systematic_gf8', 'C02_systematic_gf4', 'C02_fewer_undetermined', 'C02_fewer_failure']
+    theorems = ['C02_any_k_gf8', 'C02_any_k_gf4', 'C02_systematic_gf8', 'C02_systematic_gf4', 'C02_fewer_undetermined', 'C02_fewer_failure', 'C02_executable_field_ops']
     rule = ('(i) generator correspondence: encoder sessions on identity payloads print the repair rows of the systematic generator, '
             'compared entry by entry with the Lagrange-formula model (quick: every k for m=4 and a seeded sample of k for both m=8 codecs; '
             'thorough: every k); (ii) decoder sessions: every k-subset and every (k-1)-subset for n<=nmax, plus sampled (k,n,subset,order) up to '
